@@ -45,6 +45,11 @@ def load_seeded():
     for d in sorted(os.listdir(root)):
         meta = os.path.join(root, d, 'meta.json')
         patch = os.path.join(root, d, 'patch.diff')
+        if os.path.exists(meta) and os.path.exists(patch) and \
+                d.startswith('eq-'):
+            out.append({'id': 'seeded/' + d, 'props': [], 'patch': patch,
+                        'equivalent': True})
+            continue
         if os.path.exists(meta) and os.path.exists(patch):
             m = json.load(open(meta))
             out.append({'id': 'seeded/' + d, 'props': m.get('detected_by') or
@@ -132,7 +137,10 @@ def main():
     for k in kinds:
         entries = load_seeded() if k == 'seeded' else load(k)
         for e in entries:
-            work.append((e, 'faults' if k == 'seeded' else k, a.repo, only))
+            kk = 'faults' if k == 'seeded' else k
+            if e.get('equivalent'):
+                kk = 'equivalents'
+            work.append((e, kk, a.repo, only))
     results = []
     with concurrent.futures.ThreadPoolExecutor(a.jobs) as ex:
         for r in ex.map(run_entry, work):
